@@ -18,7 +18,7 @@ RULE = ("CubicSpline at Q, exact: every ordered pair (left,right) of the 5 singl
         "(uniqueness): every value equals that of an independent exact spline obtained by Gaussian elimination on the conditions of the "
         "property text. corpus: the D1 witness. non-trivial = every case")
 PARTIAL = ["rounding: exact statement proved/checked; f64 closeness is tested in C02's extra run",
-           "periodic boundary: exact oracles + correspondence here; theorems for the condensed periodic system in Props/C07"]
+           "theorems are single-lane; C08_spline_build_lanes / C08_individual carry them to every lane of n-d data and to per-lane boundaries"]
 ASSUMPTIONS = ["axis length < 2^64"]
 PAIRS = [(l, r) for l in c02.SB for r in c02.SB]
 
